@@ -135,7 +135,7 @@ class Note(object):
                 raise NoteFormatError("Invalid note representation: %r" % name)
         elif len(dash_index) == 2:
             note, octave = dash_index
-            if notes.is_valid_note(note):
+            if notes.is_valid_note(note) and octave.isdigit():
                 self.name = note
                 self.octave = int(octave)
                 return self
